@@ -336,8 +336,8 @@ theorem chainsResult_snd (conn : Option Bool) (as : List Annotation) :
         rw [this]
         simp [List.replicate_succ]
 
-theorem serializeMulti_plus (plus : Plus) (as : List Annotation) :
-    serializeMulti plus as (List.replicate (as.length - 1) (some false)) = .ok (chainsText plus as) := by
+theorem serializeMulti_plus (xj : List Char) (plus : Plus) (as : List Annotation) :
+    serializeMultiWith xj plus as (List.replicate (as.length - 1) (some false)) = .ok (chainsText plus as) := by
   induction as with
   | nil => rfl
   | cons a t ih =>
@@ -345,7 +345,7 @@ theorem serializeMulti_plus (plus : Plus) (as : List Annotation) :
     | nil => rfl
     | cons b t' =>
       simp only [List.length_cons, Nat.add_sub_cancel] at ih ⊢
-      rw [List.replicate_succ, serializeMulti, ih]
+      rw [List.replicate_succ, serializeMultiWith, ih]
       simp [chainsText]
 
 theorem chainsText_not_unmodified (plus : Plus) (a b : Annotation) (t : List Annotation) :
@@ -453,5 +453,23 @@ theorem joinedText_not_unmodified (plus : Plus) (a b : Annotation) (t : List Ann
   cases flags with
   | nil => simp [joinedText, joiner, isUnmodified, h1]
   | cons x xs => cases x <;> simp [joinedText, joiner, isUnmodified, h1, h2]
+
+/-- the serializer with the corrected joiner writes exactly the text the parser reads -/
+theorem serializeMultiFixed_joined (plus : Plus) (as : List Annotation) (flags : List Bool)
+    (hl : flags.length + 1 = as.length) :
+    serializeMultiFixed plus as (flags.map some) = .ok (joinedText plus as flags) := by
+  unfold serializeMultiFixed
+  induction as generalizing flags with
+  | nil => simp at hl
+  | cons a t ih =>
+    cases t with
+    | nil => rfl
+    | cons b t' =>
+      cases flags with
+      | nil => simp at hl
+      | cons x xs =>
+        have := ih xs (by simpa using hl)
+        simp only [List.map_cons, serializeMultiWith, this, joinedText]
+        cases x <;> simp [joiner, crosslinkJoinerFixed]
 
 end Pept
